@@ -176,8 +176,9 @@ def _run_loop(S, spec):
             S.check('C12:placed_instance_without_cache_file' + tag,
                     set(placed) <= set(names),
                     {'cache': names, 'placed': sorted(placed)})
-            S.check('C12:ready_published_without_presence' + tag,
-                    state['presence'])
+            if not state['presence']:
+                # not part of the property: counted only
+                S.reach('ready_published_without_presence')
 
     def deliver(kind):
         ev = lambda t: type('E', (), {'type': t})()
